@@ -125,8 +125,8 @@ func (e *Encoder) niObligations(fr *frame, ct *Contract, rv *SVal, stOut *State,
 		}
 	}
 	walk(e.aggRef(recv), pt.Elem(), 0)
-	for cl, rep := range reps {
-		m[c.Sym("H0."+cl, e.sorts[cl])] = rep
+	for _, cl := range sortedStrKeys(reps) {
+		m[c.Sym("H0."+cl, e.sorts[cl])] = reps[cl]
 	}
 	// is the control flow / every call argument independent of the entry state?
 	indep := true
@@ -203,8 +203,8 @@ func (e *Encoder) niObligations(fr *frame, ct *Contract, rv *SVal, stOut *State,
 		for _, a := range e.assumptions {
 			rec(a)
 		}
-		for _, t := range stOut.m {
-			rec(t)
+		for _, cl := range sortedStrKeys(stOut.m) {
+			rec(stOut.m[cl])
 		}
 		rec(reach)
 	}
